@@ -742,3 +742,8 @@ def check(run):
     from . import c06
     _pd, _A, _B = c06.siblings(run)
     c06.r06f(run, _A, _B)
+    # the generator describes each class by parser.options / output_options of that class: the parser must parse a nested
+    # class under exactly those (shared with C18)
+    from . import c18
+    run.rules_run.append("R18i")
+    c18.r18i(run)
